@@ -155,6 +155,7 @@ func (o *Obligation) Query2() (string, string, []*Term) {
 	ex := o.Ex
 	var as []*Term
 	as = append(as, ex.axioms...)
+	as = append(as, ex.ifaceAxioms()...)
 	as = append(as, ex.assumes[:o.NAssume]...)
 	as = append(as, o.Reach)
 	var light []*Term
@@ -548,37 +549,97 @@ func parseValuesStr(out string, gts []string) map[string]string {
 	return m
 }
 
-// instantiate: explicit ground instances of universally quantified hypotheses at the
-// goal's skolem constants and program variables (the arithmetic-indexed selects in the
-// contracts give the solvers no usable E-matching triggers).
+// instantiate: explicit ground instances of universally quantified hypotheses.
+// Two mechanisms: (1) syntactic pattern matching of the hypothesis' select-terms against the ground
+// select-terms of the goal and of the ground hypotheses, solving unit-coefficient index arithmetic
+// (k + c = t  ==>  k := t - c); (2) for hypotheses whose indices are nonlinear in the bound
+// variables, brute-force instantiation at the goal's skolem constants and program variables.
 func instantiate(hyps []*Term, goal *Term, sks []*Term) []*Term {
-	cands := map[*Sort][]*Term{}
-	seen := map[*Term]bool{}
-	add := func(t *Term) {
-		if !seen[t] && len(cands[t.S]) < 8 {
-			seen[t] = true
-			cands[t.S] = append(cands[t.S], t)
+	ic := &instCtx{seenInst: map[*Term]bool{}, groundSeen: map[*Term]bool{}, sks: sks}
+	ic.harvest(goal)
+	ic.progVars(goal)
+	for round := 0; round < 5; round++ {
+		before := len(ic.out)
+		pending := append([]*Term{}, hyps...)
+		pending = append(pending, ic.out...)
+		for _, h := range pending {
+			ic.inst(h, True)
+			if len(ic.out) > 900 {
+				break
+			}
+		}
+		if len(ic.out) == before || len(ic.out) > 900 {
+			break
+		}
+		for _, t := range ic.out[before:] {
+			ic.harvest(t)
 		}
 	}
-	for _, s := range sks {
-		add(s)
+	return ic.out
+}
+
+type instCtx struct {
+	ground     []*Term // ground select terms
+	groundSeen map[*Term]bool
+	seenInst   map[*Term]bool
+	out        []*Term
+	sks        []*Term
+	pvars      []*Term
+}
+
+// harvest collects select-terms that contain no bound variable.
+func (ic *instCtx) harvest(t *Term) {
+	var rec func(t *Term, bound map[*Term]bool) bool // returns: contains bound var
+	memo := map[*Term]bool{}
+	rec = func(t *Term, bound map[*Term]bool) bool {
+		if len(bound) == 0 {
+			if v, ok := memo[t]; ok {
+				return v
+			}
+		}
+		has := false
+		if bound[t] {
+			has = true
+		}
+		nb := bound
+		if len(t.Vars) > 0 {
+			nb = map[*Term]bool{}
+			for k := range bound {
+				nb[k] = true
+			}
+			for _, v := range t.Vars {
+				nb[v] = true
+			}
+		}
+		for _, a := range t.Args {
+			if rec(a, nb) {
+				has = true
+			}
+		}
+		if !has && t.Op == "select" && !ic.groundSeen[t] {
+			ic.groundSeen[t] = true
+			ic.ground = append(ic.ground, t)
+		}
+		if len(bound) == 0 {
+			memo[t] = has
+		}
+		return has
 	}
-	nsk := map[*Sort]int{}
-	for srt, c := range cands {
-		nsk[srt] = len(c)
-	}
-	// program variables occurring in the goal
+	rec(t, map[*Term]bool{})
+}
+
+func (ic *instCtx) progVars(goal *Term) {
+	seen := map[*Term]bool{}
 	var walk func(t *Term)
-	wseen := map[*Term]bool{}
 	walk = func(t *Term) {
-		if wseen[t] {
+		if seen[t] {
 			return
 		}
-		wseen[t] = true
-		if t.IsConst() && (t.S == SInt) {
+		seen[t] = true
+		if t.IsConst() && t.S == SInt {
 			n := t.ConstName()
 			if strings.HasPrefix(n, "p:") || strings.Contains(n, "@L") {
-				add(t)
+				ic.pvars = append(ic.pvars, t)
 			}
 		}
 		for _, a := range t.Args {
@@ -586,75 +647,278 @@ func instantiate(hyps []*Term, goal *Term, sks []*Term) []*Term {
 		}
 	}
 	walk(goal)
-	var out []*Term
-	oseen := map[*Term]bool{}
-	var inst func(h *Term, guard *Term)
-	inst = func(h *Term, guard *Term) {
-		switch {
-		case h.Op == "and":
-			for _, a := range h.Args {
-				inst(a, guard)
-			}
-		case h.Op == "=>":
-			inst(h.Args[1], And(guard, h.Args[0]))
-		case strings.HasPrefix(h.Op, "forall#"):
-			vars := h.Vars
-			// candidate lists per variable
-			lists := make([][]*Term, len(vars))
-			total := 1
-			for i, v := range vars {
-				c := cands[v.S]
-				if len(vars) > 2 && nsk[v.S] > 0 {
-					c = c[:nsk[v.S]]
-				}
-				if len(c) == 0 {
-					return
-				}
-				lists[i] = c
-				total *= len(c)
-			}
-			if total > 100 {
-				// restrict to skolems only
-				total = 1
-				for i, v := range vars {
-					if nsk[v.S] == 0 {
-						return
-					}
-					lists[i] = cands[v.S][:nsk[v.S]]
-					total *= len(lists[i])
-				}
-				if total > 100 {
-					return
-				}
-			}
-			idx := make([]int, len(vars))
-			for {
-				m := map[*Term]*Term{}
-				for i, v := range vars {
-					m[v] = lists[i][idx[i]]
-				}
-				g := Implies(guard, Subst(h.Args[0], m))
-				if g != True && !oseen[g] {
-					oseen[g] = true
-					out = append(out, g)
-				}
-				k := len(vars) - 1
-				for k >= 0 {
-					idx[k]++
-					if idx[k] < len(lists[k]) {
-						break
-					}
-					idx[k] = 0
-					k--
-				}
-				if k < 0 {
-					break
-				}
+}
+
+func (ic *instCtx) emit(g *Term) {
+	if g != True && !ic.seenInst[g] {
+		ic.seenInst[g] = true
+		ic.out = append(ic.out, g)
+	}
+}
+
+func (ic *instCtx) inst(h *Term, guard *Term) {
+	switch {
+	case h.Op == "and":
+		for _, a := range h.Args {
+			ic.inst(a, guard)
+		}
+	case h.Op == "=>":
+		ic.inst(h.Args[1], And(guard, h.Args[0]))
+	case strings.HasPrefix(h.Op, "forall#"):
+		ic.instForall(h, guard)
+	}
+}
+
+func containsAny(t *Term, vars map[*Term]bool, memo map[*Term]bool) bool {
+	if v, ok := memo[t]; ok {
+		return v
+	}
+	r := vars[t]
+	if !r {
+		for _, a := range t.Args {
+			if containsAny(a, vars, memo) {
+				r = true
+				break
 			}
 		}
 	}
-	for _, h := range hyps {
-		inst(h, True)
+	memo[t] = r
+	return r
+}
+
+func (ic *instCtx) instForall(h *Term, guard *Term) {
+	vars := map[*Term]bool{}
+	for _, v := range h.Vars {
+		vars[v] = true
 	}
-	return out
+	body := h.Args[0]
+	memo := map[*Term]bool{}
+	// patterns: select-terms containing bound vars of this quantifier (not those of inner quantifiers)
+	var pats []*Term
+	pseen := map[*Term]bool{}
+	var rec func(t *Term, inner map[*Term]bool)
+	rec = func(t *Term, inner map[*Term]bool) {
+		if pseen[t] && len(inner) == 0 {
+			return
+		}
+		if len(inner) == 0 {
+			pseen[t] = true
+		}
+		ni := inner
+		if len(t.Vars) > 0 {
+			ni = map[*Term]bool{}
+			for k := range inner {
+				ni[k] = true
+			}
+			for _, v := range t.Vars {
+				ni[v] = true
+			}
+		}
+		if t.Op == "select" && containsAny(t, vars, memo) {
+			im := map[*Term]bool{}
+			if len(ni) == 0 || !containsAny(t, ni, im) {
+				pats = append(pats, t)
+			}
+		}
+		for _, a := range t.Args {
+			rec(a, ni)
+		}
+	}
+	rec(body, map[*Term]bool{})
+	// keep maximal patterns first (bigger terms bind more variables)
+	sort.SliceStable(pats, func(i, j int) bool { return termSize(pats[i]) > termSize(pats[j]) })
+	var results []map[*Term]*Term
+	var search func(b map[*Term]*Term, depth int)
+	search = func(b map[*Term]*Term, depth int) {
+		if len(results) >= 48 {
+			return
+		}
+		if len(b) == len(h.Vars) {
+			results = append(results, b)
+			return
+		}
+		if depth > 4 {
+			return
+		}
+		// choose an unbound variable and a pattern containing it
+		for _, p := range pats {
+			um := map[*Term]bool{}
+			unb := map[*Term]bool{}
+			for v := range vars {
+				if _, ok := b[v]; !ok {
+					unb[v] = true
+				}
+			}
+			if !containsAny(p, unb, um) {
+				continue
+			}
+			for _, g := range ic.ground {
+				if g.S != p.S {
+					continue
+				}
+				nb := map[*Term]*Term{}
+				for k, v := range b {
+					nb[k] = v
+				}
+				if unify(p, g, vars, nb) && len(nb) > len(b) {
+					search(nb, depth+1)
+					if len(results) >= 48 {
+						return
+					}
+				}
+			}
+			// only the first applicable pattern is used to extend (keeps the search small)
+			break
+		}
+	}
+	if len(pats) > 0 {
+		search(map[*Term]*Term{}, 0)
+		// also try starting from each other pattern (different triggers)
+		if len(results) < 48 {
+			for pi := 1; pi < len(pats) && pi < 6; pi++ {
+				rot := append([]*Term{}, pats[pi:]...)
+				rot = append(rot, pats[:pi]...)
+				saved := pats
+				pats = rot
+				search(map[*Term]*Term{}, 0)
+				pats = saved
+			}
+		}
+	}
+	if os.Getenv("GOVC_DEBUG_INST") != "" {
+		hs := h.String()
+		if len(hs) > 300 {
+			hs = hs[:300]
+		}
+		fmt.Fprintf(os.Stderr, "INST %d results, %d pats, %d ground: %s\n", len(results), len(pats), len(ic.ground), hs)
+	}
+	dedup := map[string]bool{}
+	for _, b := range results {
+		key := ""
+		for _, v := range h.Vars {
+			key += fmt.Sprintf("%d,", b[v].id)
+		}
+		if dedup[key] {
+			continue
+		}
+		dedup[key] = true
+		ic.emit(Implies(guard, Subst(body, b)))
+	}
+	// brute force at skolems / program variables
+	cands := map[*Sort][]*Term{}
+	for _, sk := range ic.sks {
+		cands[sk.S] = append(cands[sk.S], sk)
+	}
+	nsk := map[*Sort]int{}
+	for srt, c := range cands {
+		nsk[srt] = len(c)
+	}
+	if len(results) == 0 {
+		for _, pv := range ic.pvars {
+			if len(cands[pv.S]) < 8 {
+				cands[pv.S] = append(cands[pv.S], pv)
+			}
+		}
+	}
+	lists := make([][]*Term, len(h.Vars))
+	total := 1
+	for i, v := range h.Vars {
+		c := cands[v.S]
+		if len(c) == 0 {
+			return
+		}
+		lists[i] = c
+		total *= len(c)
+	}
+	if total > 64 {
+		total = 1
+		for i, v := range h.Vars {
+			if nsk[v.S] == 0 {
+				return
+			}
+			lists[i] = cands[v.S][:nsk[v.S]]
+			total *= len(lists[i])
+		}
+		if total > 64 {
+			return
+		}
+	}
+	idx := make([]int, len(h.Vars))
+	for {
+		m := map[*Term]*Term{}
+		for i, v := range h.Vars {
+			m[v] = lists[i][idx[i]]
+		}
+		ic.emit(Implies(guard, Subst(body, m)))
+		k := len(h.Vars) - 1
+		for k >= 0 {
+			idx[k]++
+			if idx[k] < len(lists[k]) {
+				break
+			}
+			idx[k] = 0
+			k--
+		}
+		if k < 0 {
+			break
+		}
+	}
+}
+
+// unify matches pattern p (with variables vars) against ground term g, extending binding b.
+func unify(p, g *Term, vars map[*Term]bool, b map[*Term]*Term) bool {
+	if vars[p] {
+		if cur, ok := b[p]; ok {
+			return cur == g
+		}
+		if p.S != g.S {
+			return false
+		}
+		b[p] = g
+		return true
+	}
+	memo := map[*Term]bool{}
+	if !containsAny(p, vars, memo) {
+		return p == g
+	}
+	// unit-coefficient index arithmetic
+	if p.Op == "+" && p.S == SInt {
+		x, y := p.Args[0], p.Args[1]
+		xv, yv := containsAny(x, vars, memo), containsAny(y, vars, memo)
+		switch {
+		case xv && !yv:
+			return unify(x, Sub(g, y), vars, b)
+		case yv && !xv:
+			return unify(y, Sub(g, x), vars, b)
+		}
+		return false
+	}
+	if p.Op == "-" && p.S == SInt {
+		x, y := p.Args[0], p.Args[1]
+		xv, yv := containsAny(x, vars, memo), containsAny(y, vars, memo)
+		if xv && !yv {
+			return unify(x, Add(g, y), vars, b)
+		}
+		return false
+	}
+	if p.Op != g.Op || len(p.Args) != len(g.Args) || p.S != g.S {
+		return false
+	}
+	for i := range p.Args {
+		if !unify(p.Args[i], g.Args[i], vars, b) {
+			return false
+		}
+	}
+	return true
+}
+
+func termSize(t *Term) int {
+	n := 1
+	for _, a := range t.Args {
+		n += termSize(a)
+		if n > 1000 {
+			return n
+		}
+	}
+	return n
 }
